@@ -62,6 +62,8 @@ type cand struct {
 	Dup    int     `json:"dup,omitempty"` // >0: a second, distinct transaction with the same content
 	Auto   bool    `json:"auto,omitempty"` // withdraw: claim exactly what the node reports as available
 	Excess int64   `json:"x,omitempty"`    // withdraw: claim available + Excess
+	Note   string  `json:"note,omitempty"` // raw: what the pre-built transaction is
+	raw    interfaces.Transaction
 }
 
 type pinfo struct {
@@ -75,11 +77,13 @@ type pinfo struct {
 	paidSum *big.Int
 	lastSt  state.ProposalStatus
 	seen    bool
+	close   bool // a CloseProposal proposal (no budgets); A of its candidate = target pid
 }
 
 type cfgT struct {
 	V1                bool
 	Stage, Used, Comm int64
+	Term              bool // the council's term ends inside the trace (duty 24, voting 10 blocks)
 }
 
 type trace struct {
@@ -94,9 +98,11 @@ type trace struct {
 	npaid  int
 	kinds  map[string]bool
 	failed bool
+	// the trace leaves the Coq model (CloseProposal, council change): oracle only
+	noModel bool
 }
 
-func newParams(v1 bool) *config.Configuration {
+func newParams(v1 bool, term bool) *config.Configuration {
 	p := config.GetDefaultParams()
 	cr := &p.CRConfiguration
 	cr.MemberCount = nMembers
@@ -107,6 +113,10 @@ func newParams(v1 bool) *config.Configuration {
 	cr.CRCommitteeStartHeight = 20
 	cr.DutyPeriod = 1000000
 	cr.VotingPeriod = 100
+	if term {
+		cr.DutyPeriod = 24
+		cr.VotingPeriod = 10
+	}
 	cr.CRClaimDPOSNodeStartHeight = 100000000
 	cr.SecretaryGeneral = common.BytesToHexString(sg.Pub)
 	p.DPoSV2StartHeight = 200000000
@@ -121,7 +131,8 @@ func newParams(v1 bool) *config.Configuration {
 
 func newTrace(id int, c cfgT, st *lib.Stats) *trace {
 	t := &trace{id: id, cfg: c, st: st, h: h0, props: map[int]*pinfo{}, kinds: map[string]bool{}}
-	t.env = crkit.NewEnv(newParams(c.V1))
+	t.env = crkit.NewEnv(newParams(c.V1, c.Term))
+	t.noModel = c.Term
 	cm := t.env.Committee
 	for i, k := range members {
 		cm.Members[k.DID] = &state.CRMember{
@@ -132,6 +143,9 @@ func newTrace(id int, c cfgT, st *lib.Stats) *trace {
 	}
 	cm.InElectionPeriod = true
 	cm.LastCommitteeHeight = 20
+	if c.Term {
+		cm.LastCommitteeHeight = h0
+	}
 	cm.GetState().CurrentSession = 1
 	cm.CRCCurrentStageAmount = common.Fixed64(c.Stage)
 	cm.CRCCommitteeUsedAmount = common.Fixed64(c.Used)
@@ -214,6 +228,19 @@ func (t *trace) build(c cand) built {
 				[]byte(fmt.Sprintf("draft-%d-%d", t.id, c.Pid)), nextNonce())
 		}
 		return built{tx: tx, coq: fmt.Sprintf("TReg %d %s", c.Pid, coqBudgets(p.bs)), c: c}
+	case "raw":
+		t.noModel = true
+		return built{tx: c.raw, c: c}
+	case "close":
+		t.noModel = true
+		p, ok := t.props[c.Pid]
+		if !ok {
+			tg := t.prop(int(c.A), nil)
+			p = &pinfo{pid: c.Pid, owner: owners[c.Pid%len(owners)], close: true, elig: map[int]bool{}, paid: map[int]bool{}, paidSum: new(big.Int)}
+			p.tx, p.hash = crkit.CloseProposalTx(p.owner, members[c.Pid%nMembers], tg.hash, []byte(fmt.Sprintf("close-%d-%d", t.id, c.Pid)), nextNonce())
+			t.props[c.Pid] = p
+		}
+		return built{tx: p.tx, c: c}
 	case "review":
 		p := t.prop(c.Pid, nil)
 		return built{tx: crkit.Review(members[c.A], p.hash, payload.VoteResult(c.B), nextNonce()),
@@ -276,7 +303,10 @@ func (t *trace) block(cands []cand) {
 	verdicts := []bool{}
 	for _, c := range cands {
 		b := t.build(c)
-		ok, msg, panicked := t.env.Check(b.tx, h, pu, b.refs)
+		ok, msg, panicked := true, "", false
+		if c.Kind != "raw" {
+			ok, msg, panicked = t.env.Check(b.tx, h, pu, b.refs)
+		}
 		if !ok && os.Getenv("C29_DEBUG") != "" {
 			t.st.Hist["msg:"+c.Kind+":"+msg]++
 		}
@@ -341,6 +371,9 @@ func (t *trace) block(cands []cand) {
 		}
 		for _, b := range acc {
 			p := t.props[b.c.Pid]
+			if p == nil {
+				continue
+			}
 			switch b.c.Kind {
 			case "withdraw":
 				t.npaid++
@@ -363,7 +396,7 @@ func (t *trace) block(cands []cand) {
 		}
 		for _, b := range acc {
 			p := t.props[b.c.Pid]
-			if b.c.Kind == "track" {
+			if p != nil && b.c.Kind == "track" {
 				switch payload.CRCProposalTrackingType(b.c.A) {
 				case payload.Progress:
 					if _, ok := budgetsOf(p)[int(b.c.B)]; ok {
@@ -454,7 +487,42 @@ func (t *trace) block(cands []cand) {
 	}
 	usedNow := int64(cm.CRCCommitteeUsedAmount)
 	exact := new(big.Int).Add(big.NewInt(t.cfg.Used), committed)
-	if exact.Cmp(big.NewInt(int64(cm.CRCCurrentStageAmount))) > 0 {
+	// what the council must keep reserved at any time: for closed (Terminated /
+	// Finished) proposals the stages that became withdrawable and are unpaid, for
+	// live ones every unpaid stage.  Holds across a council change as well (the
+	// reserve is recomputed there), whereas the used0-relative accounting below
+	// is only meaningful inside the term the trace started in.
+	reserve := new(big.Int)
+	for _, pid := range pids {
+		p := t.props[pid]
+		s := cm.GetProposal(p.hash)
+		if s == nil {
+			continue
+		}
+		bm := budgetsOf(p)
+		switch s.Status {
+		case state.CRCanceled, state.VoterCanceled, state.Aborted:
+		case state.Terminated, state.Finished:
+			for st := range p.elig {
+				if !p.paid[st] {
+					reserve.Add(reserve, big.NewInt(bm[st]))
+				}
+			}
+		default:
+			for st, a := range bm {
+				if !p.paid[st] {
+					reserve.Add(reserve, big.NewInt(a))
+				}
+			}
+		}
+	}
+	if big.NewInt(usedNow).Cmp(reserve) < 0 {
+		t.fail("C29:reserve-below-outstanding", "CRCCommitteeUsedAmount does not cover the stages owners can still withdraw plus the unpaid stages of live proposals",
+			map[string]interface{}{"reserve_needed": reserve.String(), "used_field": usedNow, "council_changed": cm.LastCommitteeHeight != 20 && cm.LastCommitteeHeight != h0})
+	}
+	if t.cfg.Term && cm.LastCommitteeHeight != h0 {
+		// a new council took office: used amount and stage amount were recomputed
+	} else if exact.Cmp(big.NewInt(int64(cm.CRCCurrentStageAmount))) > 0 {
 		t.fail("C29:overcommit", "budgets committed to live proposals exceed the committee's available funds (CRCCurrentStageAmount)",
 			map[string]interface{}{"committed_exact": exact.String(), "available": int64(cm.CRCCurrentStageAmount), "used_field": usedNow})
 	} else if big.NewInt(usedNow).Cmp(exact) < 0 {
@@ -497,6 +565,129 @@ func (t *trace) toVoterAgreed(pid int, bs []bspec) {
 
 const ela = int64(100000000)
 
+// ---- scenario classes outside the Coq model (oracle only)
+
+// closeScenarios: a CloseProposal proposal passes while its target is in an
+// arbitrary point of its life (imprest collected or not, progress stages
+// approved and collected or not), withdrawals before and after.
+func (r *runner) closeScenarios(rng *lib.Rng, n int) {
+	for i := 0; i < n; i++ {
+		t := r.newTrace(stdCfg(rng.Bool()))
+		nb := rng.Range(3, 5)
+		bs := mkBudgets(true, nb, func(i int) int64 { return int64(rng.Intn(9)+1) * ela })
+		t.toVoterAgreed(1, bs)
+		step := func() []cand {
+			var cs []cand
+			if rng.Chance(40) {
+				cs = append(cs, cand{Kind: "withdraw", Pid: 1, Auto: true})
+			}
+			if rng.Chance(45) {
+				cs = append(cs, cand{Kind: "track", Pid: 1, A: 1, B: int64(rng.Range(1, nb-2+1))})
+			}
+			return cs
+		}
+		for k := rng.Intn(3); k > 0; k-- {
+			t.block(step())
+		}
+		t.block(append(step(), cand{Kind: "close", Pid: 2, A: 1}))
+		t.block(append(step(), cand{Kind: "review", Pid: 2, A: 0, B: 0}, cand{Kind: "review", Pid: 2, A: 1, B: 0}))
+		for k := 0; k < 4; k++ {
+			t.block(step())
+		}
+		t.block([]cand{{Kind: "withdraw", Pid: 1, Auto: true}})
+		t.block([]cand{{Kind: "reg", Pid: 3, Bs: mkBudgets(true, 2, func(int) int64 { return 3 * ela })}})
+		r.finish(t, "scenario:close-proposal", false)
+	}
+}
+
+// termScenarios: the council's term ends inside the trace and a new council is
+// elected; proposals are at arbitrary points (live, finished or terminated, with
+// or without uncollected stages) when the reserve is recomputed.
+func (r *runner) termScenarios(rng *lib.Rng, n int) {
+	for i := 0; i < n; i++ {
+		c := stdCfg(rng.Bool())
+		c.Term = true
+		t := r.newTrace(c)
+		np := rng.Range(1, 2)
+		nbs := map[int]int{}
+		var regs, revs []cand
+		for p := 1; p <= np; p++ {
+			nbs[p] = rng.Range(3, 5)
+			regs = append(regs, cand{Kind: "reg", Pid: p, Bs: mkBudgets(true, nbs[p], func(i int) int64 { return int64(rng.Intn(9)+1) * ela })})
+			revs = append(revs, cand{Kind: "review", Pid: p, A: 0, B: 0}, cand{Kind: "review", Pid: p, A: 2, B: 0})
+		}
+		t.block(regs) // h0+1
+		t.block(revs)
+		for t.h < h0+5 {
+			t.block(nil)
+		}
+		// an owner may wait with collecting until the next council sits; a proposal
+		// may be finalised or terminated at a planned height
+		waits, endAt, endTy := map[int]bool{}, map[int]uint32{}, map[int]int64{}
+		for p := 1; p <= np; p++ {
+			waits[p] = rng.Chance(60)
+			if rng.Chance(70) {
+				endAt[p] = uint32(h0 + rng.Range(7, 13))
+				endTy[p] = rng.PickI64(5, 5, 5, 3)
+			}
+		}
+		life := func() []cand {
+			var cs []cand
+			for p := 1; p <= np; p++ {
+				if endAt[p] == t.h+1 {
+					stg := int64(0)
+					if endTy[p] == 5 {
+						stg = int64(nbs[p] - 1)
+					}
+					cs = append(cs, cand{Kind: "track", Pid: p, A: endTy[p], B: stg})
+					continue
+				}
+				switch x := rng.Intn(100); {
+				case x < 25:
+					if waits[p] && t.h+1 > h0+7 && t.h+1 <= h0+24 {
+						continue
+					}
+					cs = append(cs, cand{Kind: "withdraw", Pid: p, Auto: true})
+				case x < 50:
+					cs = append(cs, cand{Kind: "track", Pid: p, A: 1, B: int64(rng.Range(1, nbs[p]-2+1))})
+				case x < 65:
+					cs = append(cs, cand{Kind: "track", Pid: p, A: 5, B: int64(nbs[p] - 1)})
+				case x < 72:
+					cs = append(cs, cand{Kind: "track", Pid: p, A: 3, B: 0})
+				}
+			}
+			return cs
+		}
+		var newc []*crkit.Key
+		for k := 0; k < 4; k++ {
+			newc = append(newc, crkit.NewKey(2900+uint64(t.id), k))
+		}
+		for t.h < h0+30 {
+			h := t.h + 1
+			cs := life()
+			if h == h0+14 { // first block of the voting period: candidates register
+				for k, key := range newc {
+					cs = append(cs, cand{Kind: "raw", Note: fmt.Sprintf("registerCR %d", k),
+						raw: crkit.RegisterCR(key, fmt.Sprintf("t%d-%d", t.id, k), nextNonce(), common.Fixed64(5000*ela))})
+				}
+			}
+			if h >= h0+20 && h <= h0+22 {
+				var cv []outputpayload.CandidateVotes
+				for k, key := range newc {
+					cv = append(cv, outputpayload.CandidateVotes{Candidate: key.CID.Bytes(), Votes: common.Fixed64(int64(k+1+rng.Intn(5)) * ela)})
+				}
+				cs = append(cs, cand{Kind: "raw", Note: "voteCRC", raw: crkit.VoteOutputTx(nextNonce(), common.Fixed64(100*ela),
+					[]outputpayload.VoteContent{{VoteType: outputpayload.CRC, CandidateVotes: cv}}, nil, nil)})
+			}
+			t.block(cs)
+		}
+		if t.env.Committee.LastCommitteeHeight != h0 {
+			r.st.Hist["scenario:term:council-changed"]++
+		}
+		r.finish(t, "scenario:council-change", false)
+	}
+}
+
 func stdCfg(v1 bool) cfgT { return cfgT{V1: v1, Stage: 100000 * ela, Used: 1000 * ela, Comm: 500 * ela} }
 
 type runner struct {
@@ -512,7 +703,7 @@ func (r *runner) finish(t *trace, kind string, emit bool) {
 	key := fmt.Sprint(t.log)
 	nontrivial := t.kinds["withdraw"] || t.kinds["track"] || t.npaid > 0
 	r.st.Count(key, nontrivial, kind)
-	if emit {
+	if emit && !t.noModel {
 		r.sh.Add(t.coq())
 		r.st.LogCase(r.run.Out, t.id, map[string]interface{}{"kind": kind, "cfg": t.cfg, "blocks": t.log})
 		r.coqN++
@@ -796,6 +987,8 @@ func main() {
 	r := &runner{run: run, st: st, sh: sh}
 	r.corpus()
 	r.random(rng, run.N(150, 1500))
+	r.closeScenarios(rng.Fork(), run.N(40, 600))
+	r.termScenarios(rng.Fork(), run.N(40, 600))
 	if run.Thorough() {
 		n1 := r.sweepSingle(true, 5, 40)
 		n2 := r.sweepSingle(false, 4, 20)
